@@ -341,6 +341,9 @@ int hx_supervise(int argc, char **argv, hx_worker_fn fn) {
             install_handlers();
             int rc = fn(argc, argv);
             fwrite(out_buf.p, 1, out_buf.n, stdout); fflush(stdout);
+#ifdef HX_FLAVOUR_cov
+            { extern void __gcov_dump(void); __gcov_dump(); }       /* coverage flavour: flush the counters of this worker */
+#endif
             _exit(rc);
         }
         int st = 0;
